@@ -36,7 +36,14 @@ func (r *c23Rec) SendMessage(_ string, message []byte, _ int) error {
 }
 
 func c23Resend() ([]mc.Violation, map[string]any) {
-	t := curT
+	vs, _, cov := c23ResendCore(curT)
+	return vs, cov
+}
+
+// c23ResendCore also returns, per first message type, a description of the first copy that differed from what the
+// retransmitter had been given (C21 judges those: a message must be SENT with a payload that decodes to its content).
+func c23ResendCore(t *testing.T) ([]mc.Violation, map[string]string, map[string]any) {
+	changed := map[string]string{}
 	old := runtime.GOMAXPROCS(1) // buffer pools are per P: keep the encoder and the retransmitter on one
 	gc := debug.SetGCPercent(-1) // and do not let a collection empty them between two steps
 	defer runtime.GOMAXPROCS(old)
@@ -89,6 +96,9 @@ func c23Resend() ([]mc.Violation, map[string]any) {
 						if s == orig {
 							continue
 						}
+						if _, ok := changed[first.wire]; !ok {
+							changed[first.wire] = fmt.Sprintf("%s handed to the retransmitter, then %s encoded: copy #%d sent later differs.\nfirst:  %.200s\ncopy:   %.200s", first.wire, second.wire, i, orig, s)
+						}
 						if !strings.Contains(s, secretKey) || strings.Contains(orig, secretKey) {
 							// a changed copy that carries no secret is not C23's subject: counted only
 							differing++
@@ -105,7 +115,7 @@ func c23Resend() ([]mc.Violation, map[string]any) {
 			}()
 		}
 	}
-	return vs, map[string]any{"retransmission_subcheck": map[string]any{
+	return vs, changed, map[string]any{"retransmission_subcheck": map[string]any{
 		"rule":  "every ordered pair (message handed to the real messages.RedundantMessenger, message encoded afterwards with the real swap.MarshalPeerswapMessage) over the 7 message types; 1..3 encodings between two retransmissions; no copy sent later may contain the taker key of the coop_close encoded meanwhile (changed copies without a secret are counted as information)",
 		"pairs": pairs, "copies_checked": copies, "copies_changed_without_secret(information)": differing}}
 }
